@@ -10,6 +10,7 @@ import (
 	"strconv"
 	"strings"
 
+	"github.com/go-git/go-billy/v5"
 	"github.com/go-git/go-billy/v5/osfs"
 
 	"github.com/MichaelMure/git-bug/repository"
@@ -23,10 +24,44 @@ type Op struct {
 	V  int    `json:"v"`
 }
 type St struct {
-	Mem  int `json:"mem"`
-	Disk int `json:"disk"`
-	Ret  int `json:"ret"`
+	Mem  int  `json:"mem"`
+	Disk int  `json:"disk"`
+	Ret  int  `json:"ret"`
+	Err  bool `json:"err"`
 }
+
+// failFS: a file system on which a file cannot be replaced while `fail` is set (renaming fails, and so does opening for
+// writing: whichever way the clock is written)
+type failFS struct {
+	billy.Filesystem
+	fail *bool
+}
+
+func (f failFS) Rename(from, to string) error {
+	if *f.fail {
+		return fmt.Errorf("injected: no space left on device")
+	}
+	return f.Filesystem.Rename(from, to)
+}
+func (f failFS) OpenFile(name string, flag int, perm os.FileMode) (billy.File, error) {
+	if *f.fail && flag&(os.O_WRONLY|os.O_RDWR|os.O_TRUNC) != 0 && !strings.Contains(name, ".tmp") {
+		return nil, fmt.Errorf("injected: no space left on device")
+	}
+	return f.Filesystem.OpenFile(name, flag, perm)
+}
+func (f failFS) Create(name string) (billy.File, error) {
+	return f.OpenFile(name, os.O_RDWR|os.O_CREATE|os.O_TRUNC, 0o666)
+}
+
+func hasFail(v Vec) bool {
+	for _, o := range v.Ops {
+		if o.Op == "incfail" || o.Op == "witfail" {
+			return true
+		}
+	}
+	return false
+}
+
 type Vec struct {
 	Ops []Op `json:"ops"`
 	Exp []St `json:"exp"`
@@ -57,6 +92,16 @@ func hasReload(v Vec) bool {
 		}
 	}
 	return false
+}
+
+func checkErr(i int, exp St, err error) string {
+	if exp.Err && err == nil {
+		return fmt.Sprintf("op %d: the clock file could not be written, yet the call reported success", i)
+	}
+	if !exp.Err && err != nil {
+		return fmt.Sprintf("op %d: failed: %v", i, err)
+	}
+	return ""
 }
 
 func check(i int, exp St, mem, disk, ret int, persist bool) string {
@@ -92,7 +137,8 @@ func runMem(v Vec, dir string) string {
 }
 
 func runPersisted(v Vec, dir string) string {
-	fs := osfs.New(dir)
+	fail := false
+	fs := failFS{osfs.New(dir), &fail}
 	c, err := lamport.NewPersistedClock(fs, "clk")
 	hx.Must(err)
 	for i, o := range v.Ops {
@@ -104,6 +150,18 @@ func runPersisted(v Vec, dir string) string {
 			ret = int(t)
 		case "witness":
 			hx.Must(c.Witness(lamport.Time(o.V)))
+		case "incfail", "witfail":
+			fail = true
+			var err error
+			if o.Op == "incfail" {
+				_, err = c.Increment()
+			} else {
+				err = c.Witness(lamport.Time(o.V))
+			}
+			fail = false
+			if why := checkErr(i, v.Exp[i], err); why != "" {
+				return why
+			}
 		case "reload":
 			c, err = lamport.LoadPersistedClock(fs, "clk")
 			if err != nil {
@@ -193,6 +251,9 @@ func Run(args []string) {
 		for _, m := range impls {
 			if !m.persist && hasReload(v) {
 				continue
+			}
+			if m.name != "PersistedClock" && hasFail(v) {
+				continue // faults are injected below the clock object
 			}
 			dir := hx.Scratch("clk")
 			why := m.f(v, dir)
